@@ -164,6 +164,8 @@ def run(check):
             plan = {"seed": rng.randrange(1 << 30), "prob": 80, "choices": [-1, 1, 4, 12], "max_acts": 10}
         add(sn, gen_overlapped(rng), overlapped=True, plan=plan)
     with harness.Runner() as rn:
+        if not rn.hang_oracle_works():
+            check.fail_broken("the hang oracle (Go runtime deadlock report) does not fire in this build")
         points = [p for p in rn.points if p.startswith("pl:")]
         for i in range(check.pick(150, 1500)):
             rng = random.Random(derive_seed(check.seed, "c12-pt", i))
